@@ -33,6 +33,9 @@ type Case struct {
 	ErrBody string `json:"errbody"` // mode=status: openai | otherjson | html | empty | generated text
 	BadBody string `json:"badbody"` // mode=bad-2xx: truncated | notjson | empty
 	ReqText string `json:"req_text"`
+	// Strategy: "" = shipped default; otherwise "<strategy>/<fallback>[/refresh]" of model routing
+	// (only combined with the modes in which no endpoint is healthy)
+	Strategy string `json:"strategy,omitempty"`
 }
 
 var (
@@ -42,8 +45,22 @@ var (
 
 const model = "vm-c05"
 
-func getRig(engine string) (*rig.Rig, error) {
-	return rig.Get("c05/"+engine, stack.Options{Engine: engine, Balancer: "priority", Mutate: func(cfg *config.Config) {
+// model-routing configurations other than the shipped default (strict)
+var strategies = []string{"optimistic/all", "optimistic/none", "optimistic/compatible_only", "discovery/all", "discovery/all/refresh", "discovery/none"}
+
+func getRig(engine string, strategy ...string) (*rig.Rig, error) {
+	strat := ""
+	if len(strategy) > 0 {
+		strat = strategy[0]
+	}
+	return rig.Get("c05/"+engine+"/"+strat, stack.Options{Engine: engine, Balancer: "priority", Mutate: func(cfg *config.Config) {
+		if strat != "" {
+			parts := strings.Split(strat, "/")
+			cfg.ModelRegistry.RoutingStrategy.Type = parts[0]
+			cfg.ModelRegistry.RoutingStrategy.Options.FallbackBehavior = parts[1]
+			cfg.ModelRegistry.RoutingStrategy.Options.DiscoveryRefreshOnMiss = len(parts) > 2
+			cfg.ModelRegistry.RoutingStrategy.Options.DiscoveryTimeout = 2 * time.Second
+		}
 		// every configured timeout is far above the promptness bound
 		cfg.Proxy.ConnectionTimeout = 60 * time.Second
 		cfg.Proxy.ResponseTimeout = 120 * time.Second
@@ -86,6 +103,12 @@ func scriptFor(c Case, id string) backend.Script {
 			b = `{"id":"c1","object":"chat.completion","choices":[{"index":0,"message":{"role":"assistant","content":"par`
 		case "notjson":
 			b, ct = "<html>it works</html>", "text/html"
+		case "error-object": // valid JSON, but not a completion
+			b = `{"error":{"message":"model is overloaded","type":"server_error"}}`
+		case "no-choices":
+			b = `{"id":"c1","object":"chat.completion","created":1,"model":"x","choices":[]}`
+		case "empty-object":
+			b = `{}`
 		}
 		hs := [][2]string{{"X-Backend-Id", id}, {"Content-Type", ct}, {"Content-Length", fmt.Sprint(len(b))}, {"Connection", "close"}}
 		return backend.Script{Steps: []backend.Step{{Op: "head", Status: 200, Headers: hs}, {Op: "raw", Raw: b}, {Op: "close"}}}
@@ -110,13 +133,16 @@ func isAnthropicError(b []byte) (string, bool) {
 func runCase(c Case) []ev.Violation {
 	var vs []ev.Violation
 	bad := func(sig, f string, a ...any) { vs = append(vs, ev.Violation{Sig: sig, Detail: fmt.Sprintf(f, a...)}) }
-	r, err := getRig(c.Engine)
+	r, err := getRig(c.Engine, c.Strategy)
 	if err != nil {
 		rec.Inconclusive("boot: " + err.Error())
 		return nil
 	}
 	r.Mu.Lock()
 	defer r.Mu.Unlock()
+	if c.Strategy != "" {
+		rec.Class("strategy=" + c.Strategy)
+	}
 	typ := "openai-compatible"
 	if c.Route == "anthropic-passthrough" {
 		typ = "vllm"
@@ -299,6 +325,13 @@ func enumerate() {
 					c.Mode, c.N = mode, 2
 					run(c)
 				}
+				for _, strat := range strategies {
+					for _, mode := range []string{"no-endpoints", "all-unhealthy"} {
+						c := base
+						c.Mode, c.N, c.Strategy = mode, 2, strat
+						run(c)
+					}
+				}
 				for _, mode := range []string{"refuse", "rst0", "close0", "circuit-open"} {
 					for n := 1; n <= 3; n++ {
 						c := base
@@ -313,7 +346,7 @@ func enumerate() {
 						run(c)
 					}
 				}
-				for _, bb := range []string{"truncated", "notjson", "empty"} {
+				for _, bb := range []string{"truncated", "notjson", "empty", "error-object", "no-choices", "empty-object"} {
 					c := base
 					c.Mode, c.N, c.BadBody = "bad-2xx", 1, bb
 					run(c)
@@ -334,13 +367,16 @@ func genCase(t *rapid.T) Case {
 	}
 	c.Status = rapid.SampledFrom(statuses).Draw(t, "status")
 	c.ErrBody = rapid.SampledFrom([]string{"openai", "otherjson", "html", "empty", "big-json", "big-html", "plain words", `{"error":"a string, not an object"}`, `{"error":{"message":""}}`, "[1,2,3]", "null"}).Draw(t, "errbody")
-	c.BadBody = rapid.SampledFrom([]string{"truncated", "notjson", "empty"}).Draw(t, "badbody")
+	c.BadBody = rapid.SampledFrom([]string{"truncated", "notjson", "empty", "error-object", "no-choices", "empty-object"}).Draw(t, "badbody")
+	if (c.Mode == "no-endpoints" || c.Mode == "all-unhealthy") && rapid.Bool().Draw(t, "otherstrategy") {
+		c.Strategy = rapid.SampledFrom(strategies).Draw(t, "strategy")
+	}
 	return c
 }
 
 func TestC05(t *testing.T) {
 	defer rig.StopAll()
-	rec.SetRule("the grid failure mode {no endpoints, all unhealthy, unknown model, every endpoint refusing / resetting before headers / closing without answer, backend 400..503 x error body {OpenAI error JSON, other JSON, HTML, empty}, 2xx with malformed body} x route {proxy, provider, Anthropic translated, Anthropic passthrough} x stream flag x engine x endpoint count is enumerated completely; rapid adds request texts and further error bodies. Client status, Content-Type, body shape and completion time are judged. non-trivial = at least one backend is contacted (or dialled) and fails; distinct by the full tuple")
+	rec.SetRule("the grid failure mode {no endpoints, all unhealthy (both also under the optimistic and discovery routing strategies with every fallback), unknown model, every endpoint refusing / resetting before headers / closing without answer, backend 400..503 x error body {OpenAI error JSON, other JSON, HTML, empty}, 2xx with a malformed body or with valid JSON that is not a completion (error object, no choices, {})} x route {proxy, provider, Anthropic translated, Anthropic passthrough} x stream flag x engine x endpoint count is enumerated completely; rapid adds request texts and further error bodies. Client status, Content-Type, body shape and completion time are judged. non-trivial = at least one backend is contacted (or dialled) and fails; distinct by the full tuple")
 	rec.Assume("promptness is a one-sided bound: instantaneous faults must be reported within 10 s while every configured timeout is >= 60 s")
 	rec.Assume("for a 2xx backend answer with a malformed body only the non-streaming translated path is asserted (non-2xx Anthropic error); closed-without-answer only requires a non-2xx")
 	if ev.Replay(t, rec, "failure", runCase) {
